@@ -4,6 +4,8 @@
 package chainsim
 
 import (
+	"path/filepath"
+	"os"
 	"fmt"
 	"math/big"
 	"sort"
@@ -64,6 +66,7 @@ type Options struct {
 	MempoolCfg  *cfg.MempoolConfig
 	RichBalance bool // balances large enough for confidential fees
 	AllRich     bool // every account is rich
+	Wasm        bool // a WASM contract at an inner-contract address, callable and upgradable (upgrade signer registered)
 	Candidates  bool // elected validator candidates in the genesis (so that evidence in blocks has somebody to score)
 	RealCache   bool // keep the mempool's tx cache (4 heaps of 100k pre-sized slots and 4 never-ending goroutines per node)
 }
@@ -89,6 +92,9 @@ type Sim struct {
 
 	InitialNative *big.Int
 	InitialToken  map[common.Address]*big.Int
+	WasmAddr      common.Address            // the WASM contract of Options.Wasm
+	WasmCodes     map[string][]byte         // test contracts of the repository (vm/wasm/wasm-run)
+	Upgrader      world.Acct                // the registered upgrade signer
 	forceCreate   map[common.Address][]byte   // the account's next transaction is the creation whose address was just pre-funded
 	CandKeys      []crypto.PubKey             // elected candidates of the genesis (Options.Candidates), then one stranger
 	Issued        map[common.Address]*big.Int // by design: ISSUE
@@ -187,6 +193,26 @@ func New(t *rapid.T, o Options) *Sim {
 	}
 	for i := 0; i < nw; i++ {
 		s.Wallets = append(s.Wallets, world.NewWallet(uint64(500+i), 2))
+	}
+	if o.Wasm {
+		dir := os.Getenv("VERIF_REPO_DIR")
+		if dir == "" {
+			dir = "/repo"
+		}
+		s.WasmCodes = map[string][]byte{}
+		for _, name := range []string{"log", "prints", "getbalance"} {
+			b, err := os.ReadFile(filepath.Join(dir, "vm/wasm/wasm-run", name+".wasm"))
+			if err != nil {
+				t.Fatalf("wasm test contract: %v", err)
+			}
+			s.WasmCodes[name] = b
+		}
+		s.WasmAddr = cfg.ContractCommitteeAddr // an inner contract: only those can be upgraded
+		s.Upgrader = world.DetAcct(900)
+		spec.UpgradeSigner = &s.Upgrader
+		spec.Accounts = append(spec.Accounts, world.GenesisAccount{Addr: s.WasmAddr, Code: s.WasmCodes["log"], Balance: big.NewInt(0), Tokens: map[common.Address]*big.Int{}})
+		s.Universe[s.WasmAddr] = struct{}{}
+		s.Universe[s.Upgrader.Addr] = struct{}{}
 	}
 	if o.Candidates {
 		nc := rapid.IntRange(1, 3).Draw(t, "ncandidates")
@@ -322,6 +348,11 @@ func (s *Sim) GenAccountTx(t *rapid.T, kinds []string) *Tx {
 		kind, forcedCode = "create", c
 	}
 	switch kind {
+	case "wasm-call":
+		if s.WasmCodes == nil {
+			return nil
+		}
+		return &Tx{Tx: world.RawTx(from, nonce, &s.WasmAddr, big.NewInt(0), 2000000, world.GasPrice, []byte("a|a")), Kind: kind, From: from.Addr, Desc: fmt.Sprintf("wasm-call from %s nonce %d", from.Addr.Hex()[:8], nonce)}
 	case "prefund-create":
 		// tokens (or coins) are sent to the address the sender's NEXT transaction will create a contract at: the
 		// creation must carry over what the address already holds
@@ -780,4 +811,15 @@ func (s *Sim) InjectAccepted(txs types.Txs) (accepted bool, note string) {
 		return false, "block does not decode: " + err.Error()
 	}
 	return s.W.Check(cp), "validator path (CheckBlock)"
+}
+
+// GenUpgrade draws an upgrade of the WASM contract signed by the registered signer: to code with the same decimals
+// answer (accepted) or with another one (rejected with ErrForbiddenDecimalsChanged).
+func (s *Sim) GenUpgrade(t *rapid.T) *Tx {
+	if s.WasmCodes == nil {
+		return nil
+	}
+	name := rapid.SampledFrom([]string{"prints", "prints", "log", "getbalance"}).Draw(t, "upgradeto")
+	nonce := s.W.App.GetNonce(s.Upgrader.Addr)
+	return &Tx{Tx: world.UpgradeTx(s.Upgrader, s.WasmAddr, nonce, s.WasmCodes[name]), Kind: "wasm-upgrade", From: s.Upgrader.Addr, Desc: fmt.Sprintf("wasm-upgrade to %s.wasm nonce %d", name, nonce)}
 }
